@@ -49,6 +49,10 @@ func RunPlan(p Plan, finish func(r *Runner) error) (res Result, err error) {
 		foregroundGID.Store(curGoroutineID())
 		if sfs != nil {
 			sfs.stepNow = r.stepA.Load
+			r.sfs = sfs
+			if r.Ev.Trace != nil {
+				sfs.trace = func(f string, a ...interface{}) { r.Ev.trace(f, a...) }
+			}
 			defer sfs.on.Store(false)
 			defer func() { r.C["sched-manifest-sync-holds"] += int(sfs.holds.Load()) }()
 		}
@@ -76,13 +80,20 @@ func RunPlan(p Plan, finish func(r *Runner) error) (res Result, err error) {
 				r.DB = nil
 			}
 		}()
+		if cr != nil {
+			defer cr.abandon()
+		}
 		for i := range p.Steps {
 			if err = r.Step(i); err != nil {
 				return
 			}
 			if cr != nil {
-				if err = cr.checkImages(); err != nil {
+				if err = cr.failed(); err != nil {
 					return
+				}
+				cr.kick()
+				if cr.queued() > 150 {
+					cr.waitIdle() // bound the memory held by queued images
 				}
 			}
 		}
